@@ -253,10 +253,14 @@ func (i *Instance) Restart(newCasketfile Input) (*Instance, error) {
 	if err != nil {
 		return i, err
 	}
+	// The new instance is serving and the old one has stopped, so the
+	// reload has happened: an error from a shutdown callback must neither
+	// skip the remaining callbacks nor report the reload as failed (which
+	// would also run the restart-failed callbacks and hand the stopped
+	// instance back to the caller). Like ShutdownCallbacks, log and go on.
 	for _, shutdownFunc := range i.OnShutdown {
-		err = shutdownFunc()
-		if err != nil {
-			return i, err
+		if sdErr := shutdownFunc(); sdErr != nil {
+			log.Printf("[ERROR] Shutdown callback of the replaced instance: %v", sdErr)
 		}
 	}
 
